@@ -163,7 +163,8 @@ def read_file_text(path):
 
 
 # ---------------------------------------------------------------------------------------------------
-def render_doc(enc, fl, *, key_map=None, value_map=None, generator="nutree/0.0.0-ext", bare_ok=True, extra_meta=None):
+def render_doc(enc, fl, *, key_map=None, value_map=None, generator="nutree/0.0.0-ext", bare_ok=True, extra_meta=None,
+               rename=None):
     """Independent encoder: the documented layout from TLC's Encode(S)."""
     km = key_map or {}
     vm = value_map or {}
@@ -191,6 +192,8 @@ def render_doc(enc, fl, *, key_map=None, value_map=None, generator="nutree/0.0.0
             if k in vm:
                 v = vm[k].index(v)
             out[km.get(k, k)] = v
+        if rename:
+            out = {rename.get(k, k): v for k, v in out.items()}
         nodes.append([e["pp"], out])
     meta = {"$generator": generator, "$format_version": "1.0"}
     if km:
@@ -222,6 +225,7 @@ def option_grid(fl, quick, salt):
         for comp in comps:
             full.append((km, vm, comp, "path"))
         full.append((km, vm, "off", "stream"))
+        full.append((km, vm, "off", "stream_ascii"))   # a caller-opened file object with a narrow encoding
     full = [f + (d,) for f in full for d in ((False, True) if not fl.is_str or True else (False,))]
     if not quick:
         return full
@@ -312,6 +316,14 @@ def obs_serial(c: Ctx, enc, *, props, quick=True, salt=0, tmpdir=None):
                     tree.save(fp, **kw)
                     text_holder["text"] = fp.getvalue()
                     text_holder["path"] = None
+                elif target == "stream_ascii":
+                    path = os.path.join(tmpdir, f"a{salt}_{km_mode}_{vm_mode}_{int(derived)}.json")
+                    with open(path, "w", encoding="ascii") as fp:
+                        tree.save(fp, **kw)
+                    with open(path, encoding="ascii") as fp:
+                        text_holder["text"] = fp.read()
+                    text_holder["path"] = None
+                    os.unlink(path)
                 else:
                     path = os.path.join(tmpdir, f"t{salt}_{km_mode}_{vm_mode}_{comp}_{int(derived)}.nutree")
                     tree.save(path, compression=COMPRESSIONS[comp], **kw)
@@ -358,17 +370,24 @@ def obs_serial(c: Ctx, enc, *, props, quick=True, salt=0, tmpdir=None):
         load_kw = {"mapper": deser_mapper}
         variants = {
             "plain": {},
+            # no key map in the header although the entries use the short names of the default map as USER keys
+            "short_user_keys": {"rename": {"name": "s", "rank": "i", "str": "str", "data_id": "data_id", "kind": "kind"}}
+            if is_item else {},
             "keymap": {"key_map": {"data_id": "i", "str": "s", "kind": "k", "name": "n", "rank": "r"}},
             "keymap+valuemap": {"key_map": {"data_id": "i", "str": "s", "kind": "k", "name": "nm"},
                                 "value_map": ({"kind": [flavours.KINDS[k] for k in (2, 1, 3)]} if fl.typed else
                                               ({"name": list(flavours.NAMES)} if is_item else {}))},
             "dicts_only": {"bare_ok": False},
         }
+        def deser_short(parent, data):   # mapper of a user whose own keys are 's' and 'i'
+            return Item(data["s"], data["i"]) if "s" in data else deser_mapper(parent, data)
+
         for dname, kw in variants.items():
             doc = render_doc(enc, fl, **kw)
             a = {"doc": dname, "expect": "ok"}
+            lkw = {"mapper": deser_short} if dname == "short_user_keys" and is_item else load_kw
             out.append({"q": "load_ext", "a": a, "r": call(
-                lambda doc=doc: cls.load(io.StringIO(json.dumps(doc)), **load_kw), lambda t2: {"canon": canon_of(t2, fl)})})
+                lambda doc=doc, lkw=lkw: cls.load(io.StringIO(json.dumps(doc)), **lkw), lambda t2: {"canon": canon_of(t2, fl)})})
         if salt % 5 == 0:
             doc = render_doc(enc, fl)
             for mname, mk in MALFORMED.items():
